@@ -96,3 +96,18 @@ Example C14_nonvacuous :
       (out_sigs (snd (run_outs world bapi world_handle 10 (mkSim 0 [] 0%N (mkWorld [] [] 0)) ops)))
   = [(0, SIG_serviceAdded, 80); (0, SIG_serviceUpdated, 81); (0, SIG_serviceRemoved, 81)]%N.
 Proof. vm_compute. reflexivity. Qed.
+
+(* the decisions of browser.cpp the theorems above rest on are regenerated from the source on every run (SrcDecisions.v):
+   which service types updateService ignores, and which records of a response onMessageReceived keeps and re-evaluates;
+   the model calls the generated definitions, and they are what the property needs: *)
+Theorem C14_decisions_read_from_the_source :
+  (forall st ty, browser_not_of_interest st ty =
+     ((match bs_data st with [] => true | _ :: _ => false end) || (negb (bs_eqb ty (Some browse_type)) && negb (bs_eqb st ty)))) /\
+  (forall ty, browser_any ty = bs_eqb ty (Some browse_type)) /\
+  (forall any r ty, browser_ptr_browse any r ty = any && bs_eqb (r_name r) (Some browse_type)) /\
+  (forall any r ty, browser_ptr_type any r ty = any || bs_eqb (r_name r) ty) /\
+  (forall any r ty, browser_srvtxt any r ty = any || ends_with ([DOT] ++ bs_data ty) (bs_data (r_name r))).
+Proof.
+  exact (conj not_of_interest_spec (conj browser_any_spec (conj browser_ptr_browse_spec (conj browser_ptr_type_spec browser_srvtxt_spec)))).
+Qed.
+Print Assumptions C14_decisions_read_from_the_source.
